@@ -751,7 +751,12 @@ func replay(tw *trace.Writer, id string, hist []step, sum *summary, probeBase in
 		info := map[string]any{}
 		res := opResult{}
 		if p != nil {
-			info = p.info
+			// (a copy taken under the lock: the fakes write into it from the operations' goroutines)
+			w.mu.Lock()
+			for k, v := range p.info {
+				info[k] = v
+			}
+			w.mu.Unlock()
 			if fin {
 				res = p.res
 			}
@@ -906,7 +911,9 @@ func replay(tw *trace.Writer, id string, hist []step, sum *summary, probeBase in
 				// Whether the two really overlapped cannot be told from the timeout (a slow start looks like a blocked
 				// one), so both steps are marked: formulas that read a step's own post-state as "the state this step
 				// produced" skip them; every state invariant is still judged.
+				w.mu.Lock()
 				p.info["overlapped"], q.info["overlapped"] = true, true
+				w.mu.Unlock()
 				select {
 				case atq := <-q.at:
 					q.pending = atq
